@@ -97,16 +97,16 @@ harnesses! {
     #[kani::unwind(5)]
     #[kani::stub(alloc::fmt::format, crate::stubs::fmt_stub)]
     fn check_wall_first(s) {
+        // one space and one construction exist (the larger sets are exercised by check_len_111): keeps the
+        // id sets small enough for the read-back to fit in memory
         let mut m = Model::default();
         m.spaces.push(Space { id: uid(1), name: String::new(), multiplier: 1.0, kind: SpaceType::CONDITIONED, inside_tenv: true, height: 3.0, z: 0.0, loads: None, thermostat: None, n_v: None, illuminance: None });
-        m.spaces.push(Space { id: uid(2), name: String::new(), multiplier: 1.0, kind: SpaceType::CONDITIONED, inside_tenv: true, height: 3.0, z: 0.0, loads: None, thermostat: None, n_v: None, illuminance: None });
         m.cons.wallcons.push(WallCons { id: uid(11), name: String::new(), layers: Vec::new(), absorptance: 0.5 });
-        m.cons.wallcons.push(WallCons { id: uid(12), name: String::new(), layers: Vec::new(), absorptance: 0.5 });
-        let (sp, ok_s) = link(s, uid(1), uid(2));
-        let (co, ok_c) = link(s, uid(11), uid(12));
+        let (sp, ok_s) = link(s, uid(1), uid(1));
+        let (co, ok_c) = link(s, uid(11), uid(11));
         let has_next = s.bool();
-        let (nx, ok_n) = link(s, uid(1), uid(2));
-        m.walls.push(Wall { id: uid(31), name: String::new(), bounds: any_bounds(s), cons: co, space: sp, next_to: if has_next { Some(nx) } else { None }, geometry: WallGeom::default() });
+        let (nx, ok_n) = link(s, uid(1), uid(1));
+        m.walls.push(Wall { id: uid(31), name: String::new(), bounds: BoundaryType::INTERIOR, cons: co, space: sp, next_to: if has_next { Some(nx) } else { None }, geometry: WallGeom::default() });
         let ws = check(&m);
         let exp = (!ok_s) as usize + (!ok_c) as usize + (has_next && !ok_n) as usize;
         cover!(exp == 3, "three broken links");
